@@ -16,6 +16,9 @@ def evaluate(ck, data, rules, docg):
                 if prev and not r["wsadj"] and blame is None:
                     blame = r["rule"]
                 prev = r["wsadj"]
+        ip = o.get("indent_pass_not_idempotent")
+        if ip:
+            ck.violation("indent-pass-not-idempotent:" + ip["class"], "%s: set_token_indent applied a second time to the unchanged token list gives %r level %r instead of %r (token %d): the levels a fix run works with are not those a fresh parse computes" % (T.tag(o), ip["value"], ip["second"], ip["first"], ip["index"]), T.rep(o, oracle="indent-pass", detail=ip))
         if o.get("init_shape") is False:
             ck.broken_tie("T2:reader-shape", "%s: the list the real reader returned does not have the shape ShapeProofs.read_shape proves of the model's" % T.tag(o))
         if o.get("end_shape") is False:
